@@ -69,7 +69,9 @@ def chk_coinbase(case):
     spk = filler(seed, "c15-spk", 25)
     sub = M.subsidy(h, reg)
     reward = {"default": None, "subsidy": sub, "over": sub + 1, "half": sub // 2 if sub > 1 else None}[case["reward"]]
-    root = filler(seed, "c15-root", 32) if case["commit"] else None
+    # commitment roots: an arbitrary one, and the degenerate all-zero / all-ones values (a legal 32-byte root; "falsy" only
+    # to code that tests the bytes instead of the argument's presence)
+    root = {False: None, True: filler(seed, "c15-root", 32), "zero": bytes(32), "ones": b"\xff" * 32}[case["commit"]]
     got = call(btx.coinbase_tx, script, spk, block_reward=reward, block_height=h, regtest=reg, witness_merkle_root_hash=root)
     push = SR.bip34_height_push(h)
     total = len(push) + len(script)
@@ -238,7 +240,7 @@ def run_job(job):
         sh, nsh = job["shard"]
         slens = [0, 1, 90, 95, 96, 97, 98, 99, 100] if tier == "quick" else list(range(0, 102))
         i = 0
-        for h, reg, sl, rw, cm in itertools.product(boundary_heights(), (False, True), slens, ("default", "subsidy", "over", "half"), (False, True)):
+        for h, reg, sl, rw, cm in itertools.product(boundary_heights(), (False, True), slens, ("default", "subsidy", "over", "half"), (False, True, "zero", "ones")):
             i += 1
             if i % nsh != sh:
                 continue
